@@ -392,3 +392,12 @@ package callbacks
 //@   in callbacks.ConvertToAssignments
 //@   min-sites 3
 //@   assert record-has-the-key: !isZero [C09]
+
+//@ # ---------- C10: a column with a database default is written by Create only if Select/Omit admit it ----------
+//@ # ConvertToCreateValues adds such a column when a record carries a value for it; that happens only for columns
+//@ # that are selected, or not named while nothing restricts the selection (rvOfvalue is the value read for it).
+//@ site create-db-default-column-admitted
+//@   match storeelem interface{} | store Column.Name
+//@   in callbacks.ConvertToCreateValues
+//@   min-sites 10
+//@   assert admitted-by-select-and-omit: defined(rvOfvalue) ==> selectColumns[field.DBName] || (!has(selectColumns, field.DBName) && !restricted) [C10]
